@@ -410,6 +410,28 @@ def handler (fn : String) : Option Handler :=
             let rout := hv.foldl (fun m v => rmax m (l1of (v.sub cen))) 0
             let S : Surf Q3 := ⟨inside, d2shape tris, br, cen, br, br + rout⟩
             outlineJudge S (muSteps [2 * (n : Rat)]) pts es }
+  | "trimesh_scaled_idx" => some {
+      model := fun a => (run (do
+          let nv ← pnat; let _vs ← pmany pv3 nv; let nt ← pnat; let ts ← pmany ptri nt; let fl ← pnat; let s ← pv3; pure (ts, fl, s)) a).map
+        fun (ts, fl, s) =>
+          (Model.Acc.trimeshScaledIdx ((fl / 8) % 2 == 1) s ts).foldl (fun o (i, j, k) => o ++ s!" {i} {j} {k}") s!"{ts.length}"
+      oracle := fun a o =>
+        match run (do let nv ← pnat; let vs ← pmany pq3 nv; let nt ← pnat; let ts ← pmany ptri nt; let fl ← pnat; let s ← pq3; pure (vs, ts, fl, s)) a,
+              run (do let nt ← pnat; let ts ← pmany ptri nt; pend; pure ts) o with
+        | some (vs, ts, fl, s), some ts' =>
+          if s.x = 0 || s.y = 0 || s.z = 0 then "skip degenerate-scale" else
+          if (fl / 8) % 2 != 1 || !closedOriented ts then "skip not-an-oriented-closed-mesh" else
+          -- six times the enclosed signed volume (positive for outward winding), exact
+          let V := vs.toArray
+          let vol (vv : Array Q3) (tt : List (Nat × Nat × Nat)) : Rat := tt.foldl (fun acc (i, j, k) =>
+            match vv[i]?, vv[j]?, vv[k]? with
+            | some x, some y, some z => acc + x.dot (y.cross z)
+            | _, _, _ => acc) 0
+          let v0 := vol V ts
+          if v0 ≤ 0 then "skip input-not-outward-wound" else
+          if ts'.length != ts.length then "fail triangle-count-changed" else
+          if vol (V.map fun p => p.cmul s) ts' > 0 then "pass" else "fail oriented-mesh-inside-out-under-mirror-scale:the-scaled-mesh-encloses-a-negative-volume"
+        | _, _ => "fail unparsable-output" }
   | "acc3" => some (accHandler 3)
   | "acc2" => some (accHandler 2)
   | "aabb_scaled3" => some {
